@@ -1,24 +1,152 @@
-/- C10 — W-TinyLFU (initial statements; the full step = spec theorems follow the backbone) -/
-import Caches.Model.WTinyLfu
+/-
+  C10 — WTinyLFUCache: window → TinyLFU admission filter → segmented main cache.
+  `WtSpec` is the policy as the property text states it; on every well-formed cache (all capacity triples ≥ 1, every
+  well-formed estimator, every key hasher `kh`) the model of the code computes exactly that, with the verdict being the
+  estimator's own `lt` at decision time.
+-/
+import Caches.Lemmas.WTinyLfu
+import Caches.Props.WtSpec
+import Caches.Properties.C07
+set_option linter.unusedSectionVars false
+set_option linter.unusedVariables false
+set_option linter.unusedSimpArgs false
 namespace C10
 open M
 variable {κ ν : Type} [DecidableEq κ]
 
-/-- every `get`/`get_mut`, hit or miss, records exactly one access: `try_reset` then `increment` on the key's hash -/
-theorem get_records_access (c c1 : WTinyLfu κ ν) (kh : κ → UInt64) (k : κ) (w : Option ν)
-    (r : Option ν) (c' : WTinyLfu κ ν) (h : c.getMut kh k w = .ok (r, c')) :
-    ∃ est', c.est.tryReset.increment (kh k) = .ok est' ∧ c'.est = est' := by
-  unfold WTinyLfu.getMut WTinyLfu.record at h
-  cases hi : c.est.tryReset.increment (kh k) with
-  | error f => simp [hi] at h
-  | ok est' =>
-    refine ⟨est', rfl, ?_⟩
-    simp only [hi] at h
-    split at h
-    · injection h with h; injection h with _ h; subst h; rfl
-    · split at h
-      · simp at h
-      · injection h with h; injection h with _ h; subst h; rfl
+def view (c : WTinyLfu κ ν) : WtSpec.St κ ν := { w := c.window.items, p := c.main.prob.items, q := c.main.prot.items }
+
+/-- the estimator's verdict as a boolean (total on well-formed estimators, see `TinyLfu.compare_total`) -/
+def ltOf (c : WTinyLfu κ ν) (kh : κ → UInt64) (a b : κ) : Bool :=
+  match c.est.lt (kh a) (kh b) with
+  | .ok r => r
+  | .error _ => false
+
+/-- the verdict is exactly "estimate of the candidate < estimate of the victim" -/
+theorem ltOf_spec (c : WTinyLfu κ ν) (kh : κ → UInt64) (a b : κ) (h : c.est.WF) :
+    ∃ ea eb, c.est.estimate (kh a) = .ok ea ∧ c.est.estimate (kh b) = .ok eb ∧ ltOf c kh a b = decide (ea < eb) := by
+  obtain ⟨ea, ba, ha, _⟩ := TinyLfu.estimate_spec c.est h (kh a)
+  obtain ⟨eb, bb, hb, _⟩ := TinyLfu.estimate_spec c.est h (kh b)
+  refine ⟨_, _, ha, hb, ?_⟩
+  unfold ltOf TinyLfu.lt TinyLfu.compare TinyLfu.compareHelper
+  rw [ha, hb]; rfl
+
+/-- `put_protected` of a key that is in neither segment, protected having room: the key goes to protected's head -/
+theorem putProtected_fresh (s : Slru κ ν) (k : κ) (v : ν)
+    (hp : find k s.prob.items = none) (hq : find k s.prot.items = none) (hroom : s.prot.items.length < s.prot.cap) :
+    s.putProtected k v = .ok (.put, { s with prot := { s.prot with items := (k, v) :: s.prot.items } }, []) := by
+  unfold Slru.putProtected RawLru.remove
+  simp only [hp, RawLru.put_absent_room s.prot k v hq hroom]
+
+theorem slru_put_view (m : Slru κ ν) (k : κ) (v : ν) (h : m.Inv) :
+    ∃ r m' d, m.put k v = .ok (r, m', d) ∧
+      (m'.prob.items, m'.prot.items, r) = SlruSpec.put m.prob.items m.prot.items m.prob.cap m.prot.cap k v :=
+  C07.put_eq_spec m k v h
+
+/-- **`put` = the policy** -/
+theorem put_eq_spec (c : WTinyLfu κ ν) (kh : κ → UInt64) (k : κ) (v : ν) (h : c.Inv) :
+    ∃ r c' d, c.put kh k v = .ok (r, c', d) ∧
+      (view c', r) = WtSpec.put (view c) c.window.cap c.main.prob.cap c.main.prot.cap (ltOf c kh) k v ∧ c'.est = c.est := by
+  obtain ⟨wnd, wb, wpos, mi, dw, ei⟩ := h
+  unfold WTinyLfu.put RawLru.remove WtSpec.put
+  simp only [view]
+  cases hw : find k c.window.items with
+  | none =>
+    simp only
+    by_cases hmc : c.main.contains k = true
+    · have hspec : ((find k c.main.prot.items).isSome || (find k c.main.prob.items).isSome) = true := by
+        unfold Slru.contains RawLru.contains at hmc; exact hmc
+      simp only [hmc, if_true, hspec]
+      obtain ⟨r, m', d, hp, heq⟩ := slru_put_view c.main k v mi
+      simp only [hp]
+      refine ⟨_, _, _, rfl, ?_, rfl⟩
+      rw [← heq]
+    · have hmc' : c.main.contains k = false := by simpa using hmc
+      have hspec : ((find k c.main.prot.items).isSome || (find k c.main.prob.items).isSome) = false := by
+        unfold Slru.contains RawLru.contains at hmc'; exact hmc'
+      simp only [hmc', Bool.false_eq_true, if_false, hspec]
+      have h0 : c.window.cap ≠ 0 := by omega
+      by_cases hfull : c.window.items.length = c.window.cap
+      · obtain ⟨cand, hl⟩ := getLast?_some_of_pos c.window.items (by omega)
+        have hnl : ¬ c.window.items.length < c.window.cap := by omega
+        simp only [RawLru.put_absent_full c.window k v cand hw hfull h0 hl, hnl, if_false, hl]
+        obtain ⟨r, m', d, hp, heq⟩ := slru_put_view c.main cand.1 cand.2 mi
+        have hlen : (c.main.len < c.main.cap) = (c.main.prot.items.length + c.main.prob.items.length < c.main.prot.cap + c.main.prob.cap) := rfl
+        by_cases hroom : c.main.len < c.main.cap
+        · have hroom' : c.main.prot.items.length + c.main.prob.items.length < c.main.prot.cap + c.main.prob.cap := hroom
+          simp only [hroom, if_true, hp, hroom']
+          refine ⟨_, _, _, rfl, ?_, rfl⟩
+          rw [← heq]
+        · have hroom' : ¬ c.main.prot.items.length + c.main.prob.items.length < c.main.prot.cap + c.main.prob.cap := hroom
+          simp only [hroom, if_false, hroom', RawLru.peekLru]
+          cases hv : c.main.prob.items.getLast? with
+          | none =>
+            simp only [hp]
+            refine ⟨_, _, _, rfl, ?_, rfl⟩
+            rw [← heq]
+          | some vic =>
+            simp only
+            obtain ⟨b, hb⟩ := TinyLfu.compare_total c.est ei .lt (kh cand.1) (kh vic.1)
+            have hlt : ltOf c kh cand.1 vic.1 = b := by unfold ltOf TinyLfu.lt; rw [hb]
+            simp only [TinyLfu.lt, hb, hlt]
+            cases b with
+            | true => exact ⟨_, _, _, rfl, rfl, rfl⟩
+            | false =>
+              simp only [hp, Bool.false_eq_true, if_false]
+              refine ⟨_, _, _, rfl, ?_, rfl⟩
+              rw [← heq]
+      · have hroom : c.window.items.length < c.window.cap := by omega
+        simp only [RawLru.put_absent_room c.window k v hw hroom, hroom, if_true]
+        exact ⟨_, _, _, rfl, rfl, rfl⟩
+  | some old =>
+    have ef := erase_facts _ k old hw wnd
+    have hknm : ¬ Slru.Held c.main k := dw k ef.1
+    have hkp : find k c.main.prob.items = none := (find_none_iff k _).2 (fun hc => hknm (Or.inl hc))
+    have hkq : find k c.main.prot.items = none := (find_none_iff k _).2 (fun hc => hknm (Or.inr hc))
+    simp only
+    unfold WTinyLfu.makeProtectedRoom
+    by_cases hpf : c.main.prot.items.length ≥ c.main.prot.cap
+    · simp only [hpf, if_true]
+      obtain ⟨ent, hl⟩ := getLast?_some_of_pos c.main.prot.items (by have := mi.pq; omega)
+      have lf := last_facts _ _ hl mi.ndq
+      simp only [Slru.removeLruFromProtected_spec c.main ent hl, hl]
+      have hentw : find ent.1 (erase k c.window.items) = none := by
+        rw [find_none_iff]
+        intro hc
+        exact dw ent.1 ((ef.2.2.2.1 ent.1).1 hc).1 (Or.inr lf.1)
+      have hroom : ({ c.window with items := erase k c.window.items } : RawLru κ ν).items.length <
+          ({ c.window with items := erase k c.window.items } : RawLru κ ν).cap := by
+        have := ef.2.2.2.2; simp only; omega
+      simp only [RawLru.put_absent_room _ ent.1 ent.2 hentw hroom]
+      have hkq' : find k c.main.prot.items.dropLast = none := by
+        rw [find_none_iff]; intro hc; exact hknm (Or.inr (lf.2.2.2.1 k hc))
+      have hr2 : c.main.prot.items.dropLast.length < c.main.prot.cap := by have := lf.2.2.2.2.1; have := mi.bq; omega
+      have := putProtected_fresh ({ c.main with prot := { c.main.prot with items := c.main.prot.items.dropLast } }) k v hkp hkq' hr2
+      simp only [this]
+      exact ⟨_, _, _, rfl, rfl, rfl⟩
+    · simp only [hpf, if_false]
+      have hr2 : c.main.prot.items.length < c.main.prot.cap := by omega
+      simp only [putProtected_fresh c.main k v hkp hkq hr2]
+      exact ⟨_, _, _, rfl, rfl, rfl⟩
+
+/-- **`get` / `get_mut` = the policy**, and every one of them (hit or miss) records exactly one access for the key:
+    the estimator becomes `increment (tryReset est) (hash k)` -/
+theorem get_eq_spec (c : WTinyLfu κ ν) (kh : κ → UInt64) (k : κ) (w : Option ν) (h : c.Inv) :
+    ∃ r c' est', c.getMut kh k w = .ok (r, c') ∧ c.est.tryReset.increment (kh k) = .ok est' ∧ c'.est = est' ∧
+      (view c', r) = WtSpec.get (view c) c.main.prot.cap k w := by
+  obtain ⟨wnd, wb, wpos, mi, dw, ei⟩ := h
+  have tw := TinyLfu.tryReset_wf c.est ei
+  obtain ⟨est', hinc, _, _⟩ := TinyLfu.increment_total c.est.tryReset tw.1 (kh k)
+  unfold WTinyLfu.getMut WTinyLfu.record WtSpec.get
+  simp only [hinc, RawLru.getMut, view]
+  cases hw : find k c.window.items with
+  | some old => exact ⟨_, _, _, rfl, rfl, rfl, by simp [use]⟩
+  | none =>
+    simp only
+    obtain ⟨r, m', hg, heq⟩ := C07.get_eq_spec c.main k w mi
+    simp only [hg]
+    refine ⟨_, _, _, rfl, rfl, rfl, ?_⟩
+    rw [← heq]
 
 /-- `purge` clears the estimator -/
 theorem purge_clears (c c' : WTinyLfu κ ν) (d : List (Obj κ ν)) (h : c.purge = .ok (c', d)) : c'.est = c.est.clear := by
@@ -32,4 +160,12 @@ theorem purge_clears (c c' : WTinyLfu κ ν) (d : List (Obj κ ν)) (h : c.purge
 /-- peeks and `contains` do not touch the estimator (they return no state at all, or a state with the same estimator) -/
 theorem peekMut_keeps_estimator (c : WTinyLfu κ ν) (k : κ) (w : Option ν) : (c.peekMut k w).1.est = c.est := by
   unfold WTinyLfu.peekMut; split <;> (try split) <;> rfl
+
+/-- `put`, `remove` leave the estimator alone as well (only `get`/`get_mut` record, only `purge` clears) -/
+theorem remove_keeps_estimator (c : WTinyLfu κ ν) (k : κ) : (c.remove k).1.est = c.est := by
+  unfold WTinyLfu.remove; split <;> (try split) <;> rfl
+
+/-- non-vacuity: main full, candidate strictly less frequent than the victim ⇒ the candidate is handed back -/
+example : WtSpec.put ⟨[(3, 30)], [(2, 20)], [(1, 10)]⟩ 1 1 1 (fun a b => a == 3 && b == 2) 4 (40 : Nat) =
+    (⟨[(4, 40)], [(2, 20)], [(1, 10)]⟩, .evicted 3 30) := by rfl
 end C10
